@@ -25,6 +25,7 @@ class Scenario:
     self.elem_typ = {}         # model name -> element typ of a deque / key typ of a dict
     self.sym_inputs = {}       # state variable -> (lo, hi): symbolic initial value
     self.global_locks = []     # (module name, global name, model name) of module-level locks met while translating
+    self.stored_attrs = {}     # (model name, attribute) -> value stored into an ignored attribute of a model object (thread.name)
     self.spawned = {}          # tid -> MThread model: programs of threads that the code under test creates and starts
     self.notes = []
 
